@@ -93,14 +93,17 @@ def axis_rule(ctx, run):
                 raise AnalysisError(f"{fn}(dim={d}): no path")
             bad = []
             for r in res:
-                terms = [r["value"]] + [c for c, _, _ in r["cond"]]
+                terms = [r["value"]]
+                # a branch condition is one truth value for the whole sample, so a reduction over everything inside it (all, any, the widest
+                # bracket of a search) is what it must be; the element COUNT it uses still has to be the one along the requested axis
+                cond_counts = [u_ for u_ in axes_used([c for c, _, _ in r["cond"]], x) if u_[0] == "numel"]
                 for e in r["events"]:
                     if e["kind"] in ("call", "opaque_call"):
                         # tensors that only steer the iteration (precision, max_iter) are not part of the value
                         terms += [a for a in list(e.get("args", [])) + [v for k, v in e.get("kwargs", {}).items() if k not in ("precision", "max_iter")] if isinstance(a, (Op, Sym))]
                     if e["kind"] == "loop_end":
                         terms += [u[3] for u in e.get("updates", []) if isinstance(u[3], (Op, Sym))]
-                for op, ax, flat in axes_used(terms, x):
+                for op, ax, flat in list(axes_used(terms, x)) + cond_counts:
                     if d is None:
                         if not (ax is None or (flat and ax in (0, -1))):
                             bad.append(f"{op} along axis {ax} of the unflattened sample")
